@@ -94,15 +94,21 @@ def check_case(case, ctx):
     nontrivial = n >= 2 and int((np.linalg.norm(J, axis=1) > 0).sum()) >= 2
     rank, _ = M.rank_gap(J)
     if kind == "span":
-        # residual of A(J) outside the row space of J (float64 SVD, unambiguous rank only)
-        r, ok = M.rank_gap(J)
+        # residual of A(J) outside the row space of J.  The row space is taken from the UNIT rows (same span, scale-free):
+        # a row of norm 1e-16 is still a direction an aggregator may legitimately use (ConFIG normalises its rows)
+        Urows = M.unit_rows(J)
+        Urows = Urows[np.linalg.norm(Urows, axis=1) > 0]
+        if Urows.shape[0] == 0:
+            r, ok = 0, True
+        else:
+            r, ok = M.rank_gap(Urows)
         if not ok:
             ctx.not_judged("span:rank_ambiguous")
             return
         if r == 0:
             resid = float(np.linalg.norm(out1))
         else:
-            _, _, Vt = np.linalg.svd(J, full_matrices=False)
+            _, _, Vt = np.linalg.svd(Urows, full_matrices=False)
             V = Vt[:r].T
             resid = float(np.linalg.norm(out1 - V @ (V.T @ out1)))
         ctx.maximum(f"span_{name}_{dname}", resid / scale)
